@@ -341,11 +341,11 @@ _RIVALS = []
 
 
 @contextlib.contextmanager
-def deadline(seconds=120):
+def deadline(seconds=20):
     """A blocking call that never returns (a lock that is never released, a read
     that waits for ever) cannot be caught by counting steps: an interval timer
     interrupts it and HarnessHang is raised in the main thread.  The budget is
-    orders of magnitude above what any case needs."""
+    orders of magnitude above what any case needs (cases take milliseconds)."""
     import signal
     import threading
 
@@ -353,7 +353,11 @@ def deadline(seconds=120):
         yield
         return
 
+    if _HANGS[0]:
+        seconds = 3  # a hang was already observed in this process: do not wait as long again
+
     def on_alarm(signum, frame):
+        _HANGS[0] += 1
         raise HarnessHang(f"blocked for more than {seconds} s")
 
     _DEADLINE[0] = True
@@ -368,6 +372,7 @@ def deadline(seconds=120):
 
 
 _DEADLINE = [False]
+_HANGS = [0]
 
 
 def read_all(stream, opts, handler=None, resume=False, limit=None):
